@@ -826,6 +826,312 @@ func c01Reducer(t *translator, s *source, e *emitter, rel string) {
 	e.printf("/-- translated from the callback of `googleBreaker.history` in %s -/\n%s\n", rel, def)
 }
 
+
+// ---- bucket.go: field updates -> Lean functions over (Sum, Success, Failure, Drop) ----------------------------------
+
+var c01BucketFields = []string{"Sum", "Success", "Failure", "Drop"}
+
+// c01FieldUpdates translates a method whose body consists of `b.F++`, `b.F--` and `b.F = <integer literal>` statements
+// on the fields of its receiver into `def <lean> (sum success failure drop : Int) : Int × Int × Int × Int`.
+func c01FieldUpdates(s *source, e *emitter, rel, goName, lean string) {
+	fd := s.findFunc(rel, goName)
+	cur := map[string]string{"Sum": "sum", "Success": "success", "Failure": "failure", "Drop": "drop"}
+	if fd == nil || fd.Body == nil || fd.Recv == nil || len(fd.Recv.List) != 1 || len(fd.Recv.List[0].Names) != 1 {
+		e.errors = append(e.errors, fmt.Sprintf("method %s not found in %s", goName, rel))
+	} else {
+		recv := fd.Recv.List[0].Names[0].Name
+		field := func(x ast.Expr) (string, bool) {
+			sel, ok := x.(*ast.SelectorExpr)
+			if !ok {
+				return "", false
+			}
+			id, ok := sel.X.(*ast.Ident)
+			if !ok || id.Name != recv {
+				return "", false
+			}
+			_, known := cur[sel.Sel.Name]
+			return sel.Sel.Name, known
+		}
+		for _, st := range fd.Body.List {
+			ok := false
+			switch x := st.(type) {
+			case *ast.IncDecStmt:
+				if f, k := field(x.X); k {
+					if x.Tok == token.INC {
+						cur[f] = "(" + cur[f] + " + 1)"
+					} else {
+						cur[f] = "(" + cur[f] + " - 1)"
+					}
+					ok = true
+				}
+			case *ast.AssignStmt:
+				if len(x.Lhs) == 1 && len(x.Rhs) == 1 && x.Tok == token.ASSIGN {
+					if f, k := field(x.Lhs[0]); k {
+						if lit, isLit := x.Rhs[0].(*ast.BasicLit); isLit && lit.Kind == token.INT {
+							cur[f] = "(" + lit.Value + " : Int)"
+							ok = true
+						}
+					}
+				}
+			}
+			if !ok {
+				e.errors = append(e.errors, fmt.Sprintf("%s: unsupported statement %q", goName, s.src(st)))
+			}
+		}
+	}
+	e.printf("/-- `%s` in %s as a function of the receiver's fields (Sum, Success, Failure, Drop) -/\n", goName, rel)
+	e.printf("def %s (sum success failure drop : Int) : Int × Int × Int × Int :=\n  (%s, %s, %s, %s)\n\n", lean,
+		cur["Sum"], cur["Success"], cur["Failure"], cur["Drop"])
+}
+
+// c01BucketAdd translates `bucket.Add`: a switch on its parameter whose clauses each call one receiver method.
+func c01BucketAdd(s *source, e *emitter, rel, goName, lean string, consts, methods map[string]string) {
+	fd := s.findFunc(rel, goName)
+	body := ""
+	if fd == nil || fd.Body == nil || len(fd.Body.List) != 1 || fd.Type.Params == nil || len(fd.Type.Params.List) != 1 ||
+		len(fd.Type.Params.List[0].Names) != 1 {
+		e.errors = append(e.errors, fmt.Sprintf("%s: expected a single switch over its one parameter", goName))
+	} else if sw, ok := fd.Body.List[0].(*ast.SwitchStmt); !ok || sw.Init != nil || sw.Tag == nil ||
+		s.src(sw.Tag) != fd.Type.Params.List[0].Names[0].Name {
+		e.errors = append(e.errors, fmt.Sprintf("%s: expected `switch <param>`", goName))
+	} else {
+		callOf := func(list []ast.Stmt) string {
+			if len(list) == 1 {
+				if es, ok := list[0].(*ast.ExprStmt); ok {
+					if call, ok := es.X.(*ast.CallExpr); ok && len(call.Args) == 0 {
+						if sel, ok := call.Fun.(*ast.SelectorExpr); ok {
+							if m, known := methods[sel.Sel.Name]; known {
+								return m + " sum success failure drop"
+							}
+						}
+					}
+				}
+			}
+			e.errors = append(e.errors, fmt.Sprintf("%s: clause body is not one call of a known receiver method", goName))
+			return "(sum, success, failure, drop)"
+		}
+		def := "(sum, success, failure, drop)"
+		var arms []string
+		for _, cl := range sw.Body.List {
+			cc := cl.(*ast.CaseClause)
+			if cc.List == nil {
+				def = callOf(cc.Body)
+				continue
+			}
+			var conds []string
+			for _, x := range cc.List {
+				id, ok := x.(*ast.Ident)
+				if !ok || consts[id.Name] == "" {
+					e.errors = append(e.errors, fmt.Sprintf("%s: case value %s is not one of the iota codes", goName, s.src(x)))
+					continue
+				}
+				conds = append(conds, "v = "+consts[id.Name])
+			}
+			arms = append(arms, fmt.Sprintf("if %s then %s\n  else ", strings.Join(conds, " ∨ "), callOf(cc.Body)))
+		}
+		body = strings.Join(arms, "") + def
+	}
+	if body == "" {
+		body = "(sum, success, failure, drop)"
+	}
+	e.printf("/-- `%s` in %s: the switch over the mark code, each clause one field update -/\n", goName, rel)
+	e.printf("def %s (v sum success failure drop : Int) : Int × Int × Int × Int :=\n  %s\n\n", lean, body)
+}
+
+
+// ---- typed effect programs ---------------------------------------------------------------------------------------
+
+// A function body is emitted as a flat, typed token list (`List Tok`): calls with their assignment targets and
+// argument lists, plain assignments, `var` declarations, `if` / `else` / `defer func() {` blocks with explicit block
+// ends, and returns.  Tie.lean gives the tokens an operational meaning (an interpreter with a defer stack, run on
+// return AND on panic) and proves, for ALL inputs, that running the extracted program yields the model's event list:
+// the ORDER of the effects (accept, mark, defer, request, return) is derived from /repo on every run.
+const c01TokDecl = `/-- one token of a function body: the typed statement skeleton the effect interpreter of Tie.lean runs -/
+inductive Tok
+  | call (lhs : List String) (f : String) (args : List String)   -- [lhs :=] f(args)
+  | set (lhs rhs : String)                                       -- lhs = <expression without call semantics>
+  | var (name ty : String)                                       -- var name ty
+  | ifB (cond : String)                                          -- if cond {
+  | elseB                                                        -- } else {
+  | deferB                                                       -- defer func() {
+  | endB                                                         -- }   (of if / else / defer)
+  | ret (vals : List String)                                     -- return vals
+  | retCall (f : String) (args : List String)                    -- return f(args)
+  deriving DecidableEq, Repr
+
+`
+
+type c01ProgT struct {
+	s    *source
+	toks []string
+	errs []string
+}
+
+func c01StrList(items []string) string {
+	q := make([]string, len(items))
+	for i, it := range items {
+		q[i] = leanString(it)
+	}
+	return "[" + strings.Join(q, ", ") + "]"
+}
+
+func (c *c01ProgT) callTok(lhs []string, call *ast.CallExpr) {
+	args := make([]string, len(call.Args))
+	for i, a := range call.Args {
+		args[i] = c.s.src(a)
+	}
+	if call.Ellipsis.IsValid() && len(args) > 0 {
+		args[len(args)-1] += "..."
+	}
+	c.toks = append(c.toks, fmt.Sprintf(".call %s %s %s", c01StrList(lhs), leanString(c.s.src(call.Fun)), c01StrList(args)))
+}
+
+func (c *c01ProgT) block(list []ast.Stmt) {
+	for _, st := range list {
+		c.stmt(st)
+	}
+}
+
+func (c *c01ProgT) stmt(st ast.Stmt) {
+	switch x := st.(type) {
+	case *ast.ExprStmt:
+		if call, ok := x.X.(*ast.CallExpr); ok {
+			if _, isLit := call.Fun.(*ast.FuncLit); !isLit {
+				c.callTok(nil, call)
+				return
+			}
+		}
+		c.errs = append(c.errs, "unsupported expression statement: "+c.s.src(st))
+	case *ast.AssignStmt:
+		lhs := make([]string, len(x.Lhs))
+		for i, l := range x.Lhs {
+			lhs[i] = c.s.src(l)
+		}
+		if len(x.Rhs) == 1 {
+			if call, ok := x.Rhs[0].(*ast.CallExpr); ok {
+				if _, isLit := call.Fun.(*ast.FuncLit); !isLit {
+					c.callTok(lhs, call)
+					return
+				}
+			}
+		}
+		if len(x.Lhs) == 1 && len(x.Rhs) == 1 {
+			c.toks = append(c.toks, fmt.Sprintf(".set %s %s", leanString(lhs[0]), leanString(c.s.src(x.Rhs[0]))))
+			return
+		}
+		c.errs = append(c.errs, "unsupported assignment: "+c.s.src(st))
+	case *ast.DeclStmt:
+		gd, ok := x.Decl.(*ast.GenDecl)
+		if ok && gd.Tok == token.VAR {
+			for _, sp := range gd.Specs {
+				vs := sp.(*ast.ValueSpec)
+				if len(vs.Values) != 0 || vs.Type == nil {
+					c.errs = append(c.errs, "unsupported var declaration: "+c.s.src(st))
+					continue
+				}
+				for _, n := range vs.Names {
+					c.toks = append(c.toks, fmt.Sprintf(".var %s %s", leanString(n.Name), leanString(c.s.src(vs.Type))))
+				}
+			}
+			return
+		}
+		c.errs = append(c.errs, "unsupported declaration: "+c.s.src(st))
+	case *ast.IfStmt:
+		if x.Init != nil {
+			c.stmt(x.Init)
+		}
+		c.toks = append(c.toks, ".ifB "+leanString(c.s.src(x.Cond)))
+		c.block(x.Body.List)
+		switch el := x.Else.(type) {
+		case nil:
+		case *ast.BlockStmt:
+			c.toks = append(c.toks, ".elseB")
+			c.block(el.List)
+		default:
+			c.toks = append(c.toks, ".elseB")
+			c.stmt(el)
+		}
+		c.toks = append(c.toks, ".endB")
+	case *ast.DeferStmt:
+		c.toks = append(c.toks, ".deferB")
+		if lit, ok := x.Call.Fun.(*ast.FuncLit); ok && len(x.Call.Args) == 0 {
+			c.block(lit.Body.List)
+		} else {
+			c.callTok(nil, x.Call)
+		}
+		c.toks = append(c.toks, ".endB")
+	case *ast.ReturnStmt:
+		if len(x.Results) == 1 {
+			if call, ok := x.Results[0].(*ast.CallExpr); ok {
+				if _, isLit := call.Fun.(*ast.FuncLit); !isLit {
+					args := make([]string, len(call.Args))
+					for i, a := range call.Args {
+						args[i] = c.s.src(a)
+					}
+					c.toks = append(c.toks, fmt.Sprintf(".retCall %s %s", leanString(c.s.src(call.Fun)), c01StrList(args)))
+					return
+				}
+			}
+		}
+		vals := make([]string, len(x.Results))
+		for i, r := range x.Results {
+			vals[i] = c.s.src(r)
+		}
+		c.toks = append(c.toks, ".ret "+c01StrList(vals))
+	case *ast.BlockStmt:
+		c.block(x.List)
+	default:
+		c.errs = append(c.errs, "unsupported statement: "+c.s.src(st))
+	}
+}
+
+// c01Prog emits the body of a function — or, if nparams >= 0, of the innermost function literal inside it that has
+// exactly nparams parameters (the handler closure of a middleware constructor) — as `def <lean> : List Tok`.
+func c01Prog(s *source, e *emitter, rel, goName, lean string, nparams int) {
+	fd := s.findFunc(rel, goName)
+	c := &c01ProgT{s: s}
+	if fd == nil || fd.Body == nil {
+		e.errors = append(e.errors, fmt.Sprintf("function %s not found in %s", goName, rel))
+	} else {
+		body := fd.Body
+		if nparams >= 0 {
+			body = nil
+			ast.Inspect(fd.Body, func(n ast.Node) bool {
+				if l, ok := n.(*ast.FuncLit); ok && l.Type.Params != nil {
+					cnt := 0
+					for _, f := range l.Type.Params.List {
+						if len(f.Names) == 0 {
+							cnt++
+						}
+						cnt += len(f.Names)
+					}
+					if cnt == nparams {
+						body = l.Body
+					}
+				}
+				return true
+			})
+			if body == nil {
+				e.errors = append(e.errors, fmt.Sprintf("%s: no function literal with %d parameters", goName, nparams))
+			}
+		}
+		if body != nil {
+			c.block(body.List)
+		}
+	}
+	for _, er := range c.errs {
+		e.errors = append(e.errors, goName+": "+er)
+	}
+	e.printf("/-- typed effect program of `%s` in %s -/\ndef %s : List Tok := [", goName, rel, lean)
+	for i, t := range c.toks {
+		if i > 0 {
+			e.printf(",")
+		}
+		e.printf("\n  %s", t)
+	}
+	e.printf("]\n\n")
+}
+
 func init() {
 	register("C01", func(s *source, e *emitter) {
 		const gb = "core/breaker/googlebreaker.go"
@@ -858,6 +1164,14 @@ func init() {
 		e.shapeDef(s, bk, "bucket.drop", "bucketDropShape")
 		e.shapeDef(s, bk, "bucket.succeed", "bucketSucceedShape")
 		e.shapeDef(s, bk, "bucket.Reset", "bucketResetShape")
+		// bucket.go, semantically: every method as a function of the four counters
+		c01FieldUpdates(s, e, bk, "bucket.fail", "bucketFailSem")
+		c01FieldUpdates(s, e, bk, "bucket.drop", "bucketDropSem")
+		c01FieldUpdates(s, e, bk, "bucket.succeed", "bucketSucceedSem")
+		c01FieldUpdates(s, e, bk, "bucket.Reset", "bucketResetSem")
+		c01BucketAdd(s, e, bk, "bucket.Add", "bucketAddSem",
+			map[string]string{"success": "codeSuccess", "fail": "codeFail", "drop": "codeDrop"},
+			map[string]string{"fail": "bucketFailSem", "drop": "bucketDropSem", "succeed": "bucketSucceedSem"})
 		// breaker.go: which fallback / acceptable each entry point passes, ctx short-circuit, wrappers
 		for _, fn := range []string{"Do", "DoWithAcceptable", "DoWithFallback", "DoWithFallbackAcceptable", "Allow"} {
 			c01Calls(s, e, br, "circuitBreaker."+fn, "calls"+fn)
@@ -1004,6 +1318,11 @@ func init() {
 			c01EmitCmp(s, e, "rwUpdateOffsetSkip", "updateOffset: nothing to do iff", "(span : Int)", x,
 				map[string]string{"span": "span"}, nil)
 		}
+		// ---- typed effect programs: the order of accept / mark / defer / request / return, run by Tie.lean's interpreter
+		e.printf("%s", c01TokDecl)
+		c01Prog(s, e, gb, "googleBreaker.doReq", "progDoReq", -1)
+		c01Prog(s, e, gb, "googleBreaker.allow", "progAllow", -1)
+		c01Prog(s, e, rh, "BreakerHandler", "progRestHandler", 2)
 		// breakers.go
 		const bs = "core/breaker/breakers.go"
 		e.shapeDef(s, bs, "GetBreaker", "getBreakerShape")
